@@ -18,6 +18,25 @@ Extracted (fail closed on any other shape):
   * Charge.create_charges: the dictionary feeding the three columns from the three keyword parameters
   * geometry.get_vertical_pixel_center_pos / get_horizontal_pixel_center_pos: the centre polynomial in
     (k, pixel size) and the layout (repeat per column / tile per row)                   -> src_cv, src_ch
+  * OBJECT IDENTITY (who shares memory with whom; record hsrc : heapparams of Model/ChargeHeap.v).  Every
+    expression that is bound to `self._array` / `self._frame`, returned by a read, or handed to xarray is
+    classified as FRESH (a new object: np.zeros, arithmetic, .copy(), np.array, pd.concat, convert_* ...), an alias
+    of the STORED array / frame, an alias of what the `array` property returns, or an alias of a PARAMETER of the
+    method (the bare name, np.asarray(x), x.view(), x[...], x.reshape(), x.T, x.astype(.., copy=False), ...):
+      - Charge.add_charge_array: every statement that (re)binds or writes `self._array`
+            `self._array += array` / `np.add(self._array, array, out=self._array)`      -> src_add_mode := AddInPlace
+            `self._array = self._array + array` / `np.add(self._array, array)`          -> AddFresh
+            any path binding `self._array` to an alias of the argument                  -> AddAdopt
+        and whether any statement writes into the argument                              -> src_add_writes_arg
+      - the `array` property returns the stored object or a copy                        -> src_array_exposes
+      - `__array__` returns (an alias of) what the property returns, or a copy          -> src_np_exposes
+      - `to_xarray` hands xarray a fresh copy                                           -> src_xr_copies
+      - Charge.add_charge_dataframe binds `self._frame` to / writes into its argument   -> src_df_adopts
+      - any other method of Charge binds `self._array` / `self._frame` to, or writes into, a parameter
+                                                                                        -> src_binds_param
+      - empty(), remove_from_frame() and the `array` property REPLACE the content of the stored array by binding
+        `self._array` to a new array (true) or by overwriting the stored array in place (`self._array[...] = ..`,
+        `.fill(..)`, np.copyto) (false)          -> src_reset_fresh, src_remove_fresh, src_rebuild_fresh
 """
 from __future__ import annotations
 
@@ -34,7 +53,7 @@ GEOM = "pyxel/detectors/geometry.py"
 
 PRELUDE = (HEADER +
            "From Coq Require Import ZArith QArith Qround List Bool.\n"
-           "From PyxelV Require Import Model.Charge.\n"
+           "From PyxelV Require Import Model.Charge Model.ChargeHeap.\n"
            "Open Scope Q_scope.\n")
 
 
@@ -620,10 +639,401 @@ def _create_charges(tree):
     fail(fn, "create_charges: the column dictionary was not found")
 
 
+
+# ------------------------------------------------------------------------------------------ object identity
+
+
+FRESH, STORED, FRAME, PROP = ("fresh",), ("stored",), ("frame",), ("prop",)
+# calls that return a NEW object whatever their arguments are
+_NP_FRESH = ("zeros", "zeros_like", "ones", "ones_like", "empty", "empty_like", "full", "full_like", "copy", "add",
+             "subtract", "multiply", "divide", "where", "floor_divide", "repeat", "tile", "arange", "concatenate",
+             "stack", "sum", "abs", "maximum", "minimum", "clip", "rint", "round", "floor")
+# calls / methods / attributes whose result MAY share memory with their first argument / receiver
+_NP_ALIAS = ("asarray", "asanyarray", "ascontiguousarray", "asfortranarray", "atleast_1d", "atleast_2d", "atleast_3d",
+             "squeeze", "reshape", "ravel", "transpose", "broadcast_to", "swapaxes", "moveaxis", "flip", "require")
+_M_ALIAS = ("view", "reshape", "ravel", "squeeze", "transpose", "swapaxes", "to_numpy", "__array__", "get", "loc",
+            "iloc", "head", "tail", "set_index", "reset_index", "rename", "reindex", "infer_objects", "convert_dtypes")
+_A_ALIAS = ("T", "values", "real", "imag", "flat", "base", "data", "loc", "iloc", "array")
+_M_FRESH = ("copy", "flatten", "tolist", "sum", "mean", "round", "clip", "query", "drop", "sort_values", "sort_index",
+            "fillna", "dropna", "assign", "apply", "map", "abs")
+# methods that write into their receiver
+_M_WRITE = ("fill", "sort", "resize", "put", "itemset", "partition", "setflags", "setfield", "byteswap", "update",
+            "insert", "pop", "clear", "append", "extend", "remove")
+
+
+def _kw(call: ast.Call, name: str):
+    for k in call.keywords:
+        if k.arg == name:
+            return k.value
+    return None
+
+
+def _is_true(node) -> bool:
+    return isinstance(node, ast.Constant) and node.value is True
+
+
+def _is_false(node) -> bool:
+    return isinstance(node, ast.Constant) and node.value is False
+
+
+def _join(classes):
+    """Several possible bindings of one name: an alias of a parameter wins, then stored / prop / frame; FRESH only
+    if every binding is fresh."""
+    cs = list(classes)
+    for c in cs:
+        if c[0] == "param":
+            return c
+    for want in (STORED, PROP, FRAME):
+        if want in cs:
+            return want
+    if cs and all(c == FRESH for c in cs):
+        return FRESH
+    return ("unknown",)
+
+
+class _Alias:
+    """Classifies expressions of one method: FRESH | STORED | FRAME | PROP | ("param", name) | ("unknown",)."""
+
+    def __init__(self, fn: ast.FunctionDef):
+        self.fn = fn
+        a = fn.args
+        self.params = [x.arg for x in a.posonlyargs + a.args + a.kwonlyargs if x.arg not in ("self", "cls")]
+        if a.vararg or a.kwarg:
+            self.params += [x.arg for x in (a.vararg, a.kwarg) if x is not None]
+        self.env: dict[str, tuple] = {}
+        # local names: join of everything they are ever bound to (flow-insensitive), to a fixpoint
+        binds: dict[str, list] = {}
+        for n in ast.walk(fn):
+            tgt = val = None
+            if isinstance(n, ast.Assign) and len(n.targets) == 1:
+                tgt, val = n.targets[0], n.value
+            elif isinstance(n, ast.AnnAssign) and n.value is not None:
+                tgt, val = n.target, n.value
+            elif isinstance(n, ast.NamedExpr):
+                tgt, val = n.target, n.value
+            if isinstance(tgt, ast.Name):
+                binds.setdefault(tgt.id, []).append(val)
+        for _ in range(6):
+            new = {}
+            for name, vals in binds.items():
+                cs = [self.cls(v) for v in vals]
+                if name in self.params:          # a parameter that is also rebound: it may still be the argument
+                    cs.append(("param", name))
+                new[name] = _join(cs)
+            if new == self.env:
+                break
+            self.env = new
+
+    def cls(self, n: ast.AST, depth=0) -> tuple:
+        if depth > 30:
+            return ("unknown",)
+        d = depth + 1
+        if isinstance(n, ast.Name):
+            if n.id in self.env:
+                return self.env[n.id]
+            if n.id in self.params:
+                return ("param", n.id)
+            return ("unknown",)
+        if isinstance(n, ast.Attribute):
+            if isinstance(n.value, ast.Name) and n.value.id == "self":
+                return {"_array": STORED, "array": PROP, "_frame": FRAME, "frame": FRAME}.get(n.attr, ("unknown",))
+            if n.attr in _A_ALIAS:
+                return self.cls(n.value, d)
+            return ("unknown",)
+        if isinstance(n, ast.Subscript):           # basic indexing gives a view; fancy indexing a copy -- assume the worst
+            return self.cls(n.value, d)
+        if isinstance(n, ast.Starred):
+            return self.cls(n.value, d)
+        if isinstance(n, (ast.BinOp, ast.UnaryOp, ast.Compare, ast.BoolOp, ast.Constant, ast.JoinedStr, ast.ListComp,
+                          ast.List, ast.Tuple, ast.Dict, ast.Set, ast.DictComp, ast.GeneratorExp)):
+            return FRESH
+        if isinstance(n, ast.IfExp):
+            return _join([self.cls(n.body, d), self.cls(n.orelse, d)])
+        if isinstance(n, ast.NamedExpr):
+            return self.cls(n.value, d)
+        if isinstance(n, ast.Call):
+            f = n.func
+            if isinstance(f, ast.Attribute) and isinstance(f.value, ast.Name) and f.value.id in ("np", "numpy"):
+                if f.attr == "array":              # np.array copies unless told otherwise
+                    c = _kw(n, "copy")
+                    if c is None or _is_true(c):
+                        return FRESH
+                    return self.cls(n.args[0], d) if n.args else ("unknown",)
+                if f.attr in _NP_ALIAS:
+                    return self.cls(n.args[0], d) if n.args else ("unknown",)
+                if f.attr in _NP_FRESH:
+                    out = _kw(n, "out")
+                    return FRESH if out is None else self.cls(out, d)
+                return ("unknown",)
+            if isinstance(f, ast.Attribute) and isinstance(f.value, ast.Name) and f.value.id in ("pd", "pandas"):
+                if f.attr in ("concat", "DataFrame", "Series", "merge"):
+                    c = _kw(n, "copy")
+                    if f.attr == "concat" and c is not None and not _is_true(c):
+                        return ("unknown",)
+                    if f.attr == "DataFrame" and n.args and not isinstance(n.args[0], ast.Dict):
+                        # DataFrame(<frame or array>) may share its data
+                        return self.cls(n.args[0], d) if (c is None or not _is_true(c)) else FRESH
+                    return FRESH
+                return ("unknown",)
+            if isinstance(f, ast.Attribute):
+                recv = f.value
+                if ast.unparse(f) in ("self.convert_df_to_array", "Charge.convert_array_to_df", "cls.convert_array_to_df",
+                                      "self.convert_array_to_df", "Charge.create_charges", "cls.create_charges",
+                                      "self.create_charges", "self.EMPTY_FRAME.copy"):
+                    return FRESH
+                if f.attr == "astype":
+                    c = _kw(n, "copy")
+                    return FRESH if (c is None or _is_true(c)) else self.cls(recv, d)
+                if f.attr == "copy":
+                    deep = _kw(n, "deep")
+                    return FRESH if (deep is None or _is_true(deep)) else self.cls(recv, d)
+                if f.attr in _M_FRESH:
+                    ip = _kw(n, "inplace")
+                    return FRESH if (ip is None or _is_false(ip)) else ("unknown",)
+                if f.attr in _M_ALIAS:
+                    return self.cls(recv, d)
+                return ("unknown",)
+            return ("unknown",)
+        return ("unknown",)
+
+    # -- statements that write INTO an object ----------------------------------------------------------------
+
+    def written(self):
+        """Yield (classification of the written object, node) for every statement that mutates an object in place."""
+        for n in ast.walk(self.fn):
+            if isinstance(n, ast.AugAssign):
+                t = n.target
+                if isinstance(t, ast.Name):
+                    yield self.cls(t), n                     # `x += ..` mutates the array x is bound to
+                elif isinstance(t, (ast.Subscript, ast.Attribute)):
+                    yield self.cls(t if isinstance(t, ast.Attribute) and isinstance(t.value, ast.Name)
+                                   and t.value.id == "self" else t.value), n
+            elif isinstance(n, (ast.Assign, ast.AnnAssign)):
+                tgts = n.targets if isinstance(n, ast.Assign) else [n.target]
+                for t in tgts:
+                    for e in (t.elts if isinstance(t, (ast.Tuple, ast.List)) else [t]):
+                        if isinstance(e, ast.Subscript):
+                            yield self.cls(e.value), n       # x[...] = ..
+                        elif isinstance(e, ast.Attribute) and not (isinstance(e.value, ast.Name) and e.value.id == "self"):
+                            yield self.cls(e.value), n       # x.attr = ..  (e.g. x.flags.writeable, x.shape)
+            elif isinstance(n, ast.Delete):
+                for t in n.targets:
+                    if isinstance(t, ast.Subscript):
+                        yield self.cls(t.value), n
+            elif isinstance(n, ast.Call):
+                out = _kw(n, "out")
+                if out is not None:
+                    yield self.cls(out), n
+                f = n.func
+                if isinstance(f, ast.Attribute):
+                    ip = _kw(n, "inplace")
+                    if f.attr in _M_WRITE or (ip is not None and not _is_false(ip)):
+                        yield self.cls(f.value), n
+                    if isinstance(f.value, ast.Name) and f.value.id in ("np", "numpy") and f.attr in (
+                            "copyto", "put", "place", "putmask", "fill_diagonal", "put_along_axis") and n.args:
+                        yield self.cls(n.args[0]), n
+
+
+def _mentions(node, names) -> bool:
+    return any(isinstance(n, ast.Name) and n.id in names for n in ast.walk(node))
+
+
+def _is_sum(al, v) -> bool:
+    """`<stored array> + <something computed from a parameter>` (either order), or np.add of the two without `out`."""
+    if isinstance(v, ast.BinOp) and isinstance(v.op, ast.Add):
+        l, r = v.left, v.right
+    elif _np_call(v, ("add",)) and len(v.args) == 2 and _kw(v, "out") is None:
+        l, r = v.args
+    else:
+        return False
+    for a, b in ((l, r), (r, l)):
+        if al.cls(a) in (STORED, PROP) and al.cls(b)[0] in ("param", "fresh") and _mentions(b, al.params):
+            return True
+    return False
+
+
+def _self_attr(node, names) -> str | None:
+    if (isinstance(node, ast.Attribute) and isinstance(node.value, ast.Name) and node.value.id == "self"
+            and node.attr in names):
+        return node.attr
+    return None
+
+
+def _bindings(fn: ast.FunctionDef, al: _Alias):
+    """(attribute, classification of the bound object, node) for every `self._array = ..` / `self._frame = ..`."""
+    out = []
+    for n in ast.walk(fn):
+        tgts, val = [], None
+        if isinstance(n, ast.Assign):
+            tgts, val = n.targets, n.value
+        elif isinstance(n, ast.AnnAssign) and n.value is not None:
+            tgts, val = [n.target], n.value
+        for t in tgts:
+            if isinstance(t, (ast.Tuple, ast.List)):
+                if any(_self_attr(e, ("_array", "_frame")) for e in t.elts):
+                    fail(n, "tuple assignment to self._array / self._frame")
+                continue
+            a = _self_attr(t, ("_array", "_frame"))
+            if a is not None:
+                out.append((a, al.cls(val), n))
+        if isinstance(n, ast.Call) and ast.unparse(n.func) == "setattr":
+            fail(n, "setattr in class Charge")
+    return out
+
+
+def _identity(tree) -> dict:
+    cands = [n for n in ast.walk(tree) if isinstance(n, ast.ClassDef) and n.name == "Charge"]
+    if len(cands) != 1:
+        fail(None, "class Charge not found exactly once")
+    methods = [n for n in cands[0].body if isinstance(n, ast.FunctionDef)]
+    res = dict(add=None, writes_arg=False, df_adopts=False, binds_param=False)
+    modes = set()
+    for fn in methods:
+        al = _Alias(fn)
+        binds = _bindings(fn, al)
+        for attr, c, node in binds:
+            if c[0] == "unknown":
+                fail(node, f"{fn.name}: cannot tell whether the object bound to self.{attr} is shared with something")
+            if c[0] == "param":
+                if fn.name == "add_charge_array" and attr == "_array":
+                    modes.add("AddAdopt")
+                elif fn.name == "add_charge_dataframe" and attr == "_frame":
+                    res["df_adopts"] = True
+                else:
+                    res["binds_param"] = True
+            elif fn.name == "add_charge_array" and attr == "_array":
+                # a NEW array: must be the sum of the stored one and (something computed from) the argument
+                if c == STORED:
+                    continue                                  # self._array = self._array: no change
+                if _is_sum(al, node.value):
+                    modes.add("AddFresh")
+                else:
+                    fail(node, "add_charge_array: self._array is rebound to something that is not "
+                               "`self._array + <argument>`")
+        for c, node in al.written():
+            if c[0] == "param":
+                if fn.name == "add_charge_array":
+                    res["writes_arg"] = True
+                elif fn.name == "add_charge_dataframe":
+                    res["df_adopts"] = True
+                else:
+                    res["binds_param"] = True
+            elif c == STORED and fn.name == "add_charge_array":
+                # in-place accumulation: `self._array += <argument>`, `self._array[...] += <argument>`,
+                # `self._array[...] = self._array + <argument>`, np.add(self._array, <argument>, out=self._array)
+                def stored_target(t):
+                    return _self_attr(t, ("_array",)) or (isinstance(t, ast.Subscript) and _self_attr(t.value, ("_array",)))
+
+                if isinstance(node, ast.AugAssign) and isinstance(node.op, ast.Add) and stored_target(node.target):
+                    if not _mentions(node.value, al.params):
+                        fail(node, "add_charge_array: `self._array += ...` must add the argument")
+                    modes.add("AddInPlace")
+                elif (isinstance(node, ast.Assign) and len(node.targets) == 1 and isinstance(node.targets[0], ast.Subscript)
+                      and stored_target(node.targets[0]) and _is_sum(al, node.value)):
+                    modes.add("AddInPlace")
+                elif (isinstance(node, ast.Call) and _np_call(node, ("add",)) and len(node.args) == 2
+                      and _is_sum(al, ast.BinOp(left=node.args[0], op=ast.Add(), right=node.args[1]))):
+                    modes.add("AddInPlace")
+                else:
+                    fail(node, "add_charge_array: in-place write into self._array of a shape that is not accepted")
+            elif c[0] == "unknown" and isinstance(node, (ast.AugAssign,)) and fn.name in (
+                    "add_charge_array", "add_charge_dataframe"):
+                fail(node, f"{fn.name}: cannot tell which object this statement writes into")
+    if "AddAdopt" in modes:
+        res["add"] = "AddAdopt"
+    elif modes == {"AddInPlace"}:
+        res["add"] = "AddInPlace"
+    elif modes == {"AddFresh"}:
+        res["add"] = "AddFresh"
+    else:
+        fail(find_func(tree, "add_charge_array", "Charge"),
+             f"add_charge_array: the accumulation into self._array was not found in one accepted shape ({sorted(modes)})")
+
+    # the three places that replace the content of the stored array: a new object, or in place
+    def renews(name, fns):
+        kinds = set()
+        for fn in fns:
+            al = _Alias(fn)
+            for attr, c, node in _bindings(fn, al):
+                if attr == "_array" and c == FRESH:
+                    kinds.add(True)
+            for c, node in al.written():
+                if c == STORED:
+                    kinds.add(False)
+        if len(kinds) != 1:
+            fail(fns[0] if fns else None, f"{name}: the stored array must be replaced either by a new array or in place "
+                                          f"(found {sorted(kinds)})")
+        return kinds.pop()
+
+    res["reset_fresh"] = renews("empty", [m for m in methods if m.name == "empty"])
+    res["remove_fresh"] = renews("remove_from_frame", [m for m in methods if m.name == "remove_from_frame"])
+    res["rebuild_fresh"] = renews("array", [m for m in methods if m.name == "array"
+                                            and any(ast.unparse(d) == "property" for d in m.decorator_list)])
+
+    # reads: what leaves the container
+    def returns(fn):
+        return [n for n in ast.walk(fn) if isinstance(n, ast.Return) and n.value is not None]
+
+    props = [m for m in methods if m.name == "array"
+             and any(ast.unparse(d) == "property" for d in m.decorator_list)]
+    if len(props) != 1:
+        fail(None, "the `array` property of Charge was not found exactly once")
+    al = _Alias(props[0])
+    cs = {al.cls(r.value) for r in returns(props[0])}
+    if cs == {STORED}:
+        res["array_exposes"] = True
+    elif cs == {FRESH}:
+        res["array_exposes"] = False
+    else:
+        fail(props[0], f"`array` property: returns {sorted(cs)}; expected the stored array or a copy of it")
+
+    arr = [m for m in methods if m.name == "__array__"]
+    if len(arr) != 1:
+        fail(None, "Charge.__array__ not found exactly once")
+    al = _Alias(arr[0])
+    cs = {al.cls(r.value) for r in returns(arr[0])}
+    if cs == {PROP}:
+        res["np_exposes"] = True
+    elif cs == {FRESH}:
+        res["np_exposes"] = False
+    else:
+        fail(arr[0], f"__array__: returns {sorted(cs)}; expected (a view of) what the `array` property returns, or a copy")
+
+    tx = [m for m in methods if m.name == "to_xarray"]
+    if len(tx) != 1:
+        fail(None, "Charge.to_xarray not found exactly once")
+    al = _Alias(tx[0])
+    calls = [n for n in ast.walk(tx[0]) if isinstance(n, ast.Call) and ast.unparse(n.func) in ("xr.DataArray", "xarray.DataArray")]
+    rets = returns(tx[0])
+    if len(rets) != 1:
+        fail(tx[0], "to_xarray must have one return")
+    main = rets[0].value
+    if isinstance(main, ast.Name):
+        main = next((n.value for n in ast.walk(tx[0]) if isinstance(n, (ast.Assign, ast.AnnAssign)) and n.value is not None
+                     and any(isinstance(t, ast.Name) and t.id == main.id
+                             for t in (n.targets if isinstance(n, ast.Assign) else [n.target]))), main)
+    if main not in calls:
+        fail(rets[0], "to_xarray must return xr.DataArray(<data>, ...)")
+    data = main.args[0] if main.args else _kw(main, "data")
+    if data is None:
+        fail(main, "xr.DataArray without data")
+    c = al.cls(data)
+    if c == FRESH:
+        res["xr_copies"] = True
+    elif c in (PROP, STORED):
+        res["xr_copies"] = False
+    else:
+        fail(main, "to_xarray: cannot tell whether the data handed to xarray is a copy")
+    return res
+
+
 # ------------------------------------------------------------------------------------------ entry point
 
 
 def render(d: dict) -> str:
+    def b(x) -> str:
+        return "true" if x else "false"
+
     return (PRELUDE +
             "\n(* Charge.convert_df_to_array: first and second subscript of the njit loop *)\n"
             f"Definition src_iv (pv ph sv sh : Q) : Z := {d['iv']}.\n"
@@ -637,7 +1047,24 @@ def render(d: dict) -> str:
             f"Definition src_cv (sv sh : Q) (k : nat) : Q := {d['cv']}.\n"
             f"Definition src_ch (sv sh : Q) (k : nat) : Q := {d['ch']}.\n"
             "\nDefinition src : srcparams :=\n"
-            "  {| sp_iv := src_iv; sp_ih := src_ih; sp_keep := src_keep; sp_thr := src_thr; sp_cv := src_cv; sp_ch := src_ch |}.\n")
+            "  {| sp_iv := src_iv; sp_ih := src_ih; sp_keep := src_keep; sp_thr := src_thr; sp_cv := src_cv; sp_ch := src_ch |}.\n"
+            "\n(* object identity: who shares memory with whom (Charge.add_charge_array, .array, __array__, to_xarray,\n"
+            "   add_charge_dataframe, every other binding of self._array / self._frame) *)\n"
+            f"Definition src_add_mode : add_mode := {d['add']}.\n"
+            f"Definition src_add_writes_arg : bool := {b(d['writes_arg'])}.\n"
+            f"Definition src_array_exposes : bool := {b(d['array_exposes'])}.\n"
+            f"Definition src_np_exposes : bool := {b(d['np_exposes'])}.\n"
+            f"Definition src_xr_copies : bool := {b(d['xr_copies'])}.\n"
+            f"Definition src_df_adopts : bool := {b(d['df_adopts'])}.\n"
+            f"Definition src_binds_param : bool := {b(d['binds_param'])}.\n"
+            f"Definition src_reset_fresh : bool := {b(d['reset_fresh'])}.\n"
+            f"Definition src_remove_fresh : bool := {b(d['remove_fresh'])}.\n"
+            f"Definition src_rebuild_fresh : bool := {b(d['rebuild_fresh'])}.\n"
+            "Definition hsrc : heapparams :=\n"
+            "  {| hp_add := src_add_mode; hp_writes_arg := src_add_writes_arg; hp_array_exposes := src_array_exposes;\n"
+            "     hp_np_exposes := src_np_exposes; hp_xr_copies := src_xr_copies; hp_df_adopts := src_df_adopts;\n"
+            "     hp_binds_param := src_binds_param; hp_reset_fresh := src_reset_fresh;\n"
+            "     hp_remove_fresh := src_remove_fresh; hp_rebuild_fresh := src_rebuild_fresh |}.\n")
 
 
 def translate(repo: Path) -> str:
@@ -645,6 +1072,7 @@ def translate(repo: Path) -> str:
     gtree = parse(repo, GEOM)
     d = _df_to_array(tree)
     d.update(_array_to_df(tree))
+    d.update(_identity(tree))
     _create_charges(tree)
     pv = _centre_fn(gtree, "get_vertical_pixel_center_pos", "num_rows", "num_cols", "pixel_vertical_size", "repeat")
     ph = _centre_fn(gtree, "get_horizontal_pixel_center_pos", "num_cols", "num_rows", "pixel_horizontal_size", "tile")
@@ -657,6 +1085,8 @@ FALLBACK = render(dict(
     iv="(Qfloor (pv / sv))", ih="(Qfloor (ph / sh))",
     keep="(((((0) <=? iv)%Z && (iv <? rows)%Z) && ((0) <=? ih)%Z) && (ih <? cols)%Z)",
     acc=True, number=True, thr="negb (Qle_bool x (0 # 1))",
-    cv="inject_Z (Z.of_nat k) * sv + sv / 2", ch="inject_Z (Z.of_nat k) * sh + sh / 2"))
+    cv="inject_Z (Z.of_nat k) * sv + sv / 2", ch="inject_Z (Z.of_nat k) * sh + sh / 2",
+    add="AddInPlace", writes_arg=False, array_exposes=True, np_exposes=True, xr_copies=True, df_adopts=False,
+    binds_param=False, reset_fresh=True, remove_fresh=True, rebuild_fresh=True))
 
 __all__ = ["translate", "FALLBACK", "TranslationError"]
